@@ -5,6 +5,8 @@ import (
 	"fmt"
 	"math"
 	"reflect"
+	"strconv"
+	"strings"
 )
 
 // StructAccessor is a json string with get functions.
@@ -19,22 +21,65 @@ func NewStructAccessor(object interface{}) *StructAccessor {
 	}
 }
 
-// field returns the struct field identified by key. The returned value is
-// invalid if there is no such field, or if it would be promoted from an
-// embedded struct pointer that is nil.
+// field returns the value identified by key. Like with the JSON accessors,
+// the key may select a root level field ("field"), a sub level field
+// ("field.sub"), an element of an array, slice or map ("list.0", "map.key")
+// or the length of one ("list.#"). Pointers on the way are followed.
+// The returned value is invalid if the key does not select anything, which
+// includes fields that are behind a nil pointer.
 func (sa *StructAccessor) field(key string) reflect.Value {
-	if sa.object.Kind() != reflect.Struct {
-		return reflect.Value{}
+	current := sa.object
+	for _, part := range strings.Split(key, ".") {
+		// Follow pointers to whatever the previous part selected.
+		for current.Kind() == reflect.Ptr || current.Kind() == reflect.Interface {
+			if current.IsNil() {
+				return reflect.Value{}
+			}
+			current = current.Elem()
+		}
+
+		switch current.Kind() { // nolint:exhaustive
+		case reflect.Struct:
+			structField, ok := current.Type().FieldByName(part)
+			if !ok {
+				return reflect.Value{}
+			}
+			next, err := current.FieldByIndexErr(structField.Index)
+			if err != nil {
+				// promoted from an embedded struct pointer that is nil
+				return reflect.Value{}
+			}
+			current = next
+
+		case reflect.Slice, reflect.Array:
+			if part == "#" {
+				current = reflect.ValueOf(current.Len())
+				continue
+			}
+			index, err := strconv.Atoi(part)
+			if err != nil || index < 0 || index >= current.Len() {
+				return reflect.Value{}
+			}
+			current = current.Index(index)
+
+		case reflect.Map:
+			if part == "#" {
+				current = reflect.ValueOf(current.Len())
+				continue
+			}
+			if current.Type().Key().Kind() != reflect.String {
+				return reflect.Value{}
+			}
+			current = current.MapIndex(reflect.ValueOf(part).Convert(current.Type().Key()))
+			if !current.IsValid() {
+				return reflect.Value{}
+			}
+
+		default:
+			return reflect.Value{}
+		}
 	}
-	structField, ok := sa.object.Type().FieldByName(key)
-	if !ok {
-		return reflect.Value{}
-	}
-	field, err := sa.object.FieldByIndexErr(structField.Index)
-	if err != nil {
-		return reflect.Value{}
-	}
-	return field
+	return current
 }
 
 // Set sets the value identified by key.
